@@ -1,5 +1,7 @@
 package lru
 
+import "time"
+
 // VerifWalk reports the shape of the recency list under the cache lock (read-only).
 // Overlay file of /verif; needs the iterable overlay as well.
 func (p *ECache[PK, K, V]) VerifWalk() (nodes, deleted, refSum, resident, inflight int, sane bool) {
@@ -7,4 +9,19 @@ func (p *ECache[PK, K, V]) VerifWalk() (nodes, deleted, refSum, resident, inflig
 	defer p.lock.Unlock()
 	nodes, deleted, refSum, sane = p.items.VerifWalk()
 	return nodes, deleted, refSum, p.items.Len(), len(p.inflight), sane
+}
+
+// VerifWithLock runs f while holding the cache's mutex (schedule control for the checks, see internal/lockstep): calls that
+// are started while f runs queue up on the mutex in the order in which they arrive and get their critical sections in that
+// order afterwards. Changes nothing in the cache.
+func (p *ECache[PK, K, V]) VerifWithLock(f func()) {
+	p.lock.Lock()
+	f()
+	// Put the mutex into starvation mode: the goroutines that queued up during f have waited > 1 ms; the first one
+	// wakes on this Unlock, finds the mutex taken again and flags starvation, after which every Unlock hands the
+	// mutex (and the processor) directly to the next waiter in FIFO order; a goroutine that arrives later queues at the tail.
+	p.lock.Unlock()
+	p.lock.Lock()
+	time.Sleep(time.Millisecond)
+	p.lock.Unlock()
 }
